@@ -178,6 +178,11 @@ FaultFailing(a, ev) ==
   \cup (IF f.scan_raised = 0 /\ f.scan \in ok /\
            \E i \in 1..Len(f.reads) : f.reads[i].exc = "" /\ f.reads[i].res # Result(f.reads[i].a, f.scan)
         THEN {[clause |-> "fault_reads", expected |-> [i \in 1..Len(f.reads) |-> Result(f.reads[i].a, f.scan)]]} ELSE {})
+  (* the object can no longer iterate over its storage (e.g. its handle is closed): a read that still answers *)
+  (* must answer over what the file holds                                                                   *)
+  \cup (IF f.scan_raised = 1 /\ f.file_now \in ok /\
+           \E i \in 1..Len(f.reads) : f.reads[i].exc = "" /\ f.reads[i].res # Result(f.reads[i].a, f.file_now)
+        THEN {[clause |-> "fault_reads", expected |-> [i \in 1..Len(f.reads) |-> Result(f.reads[i].a, f.file_now)]]} ELSE {})
   \cup (IF f.scan_raised = 0 /\ f.scan \in ok /\ f.valid = 1 /\ (f.ix.n # Len(f.scan) \/ f.ix.live # f.ix.fresh)
         THEN {[clause |-> "fault_index", expected |-> f.ix.fresh]} ELSE {})
   \cup (IF f.scan_raised = 0 /\ f.scan \in ok /\ rmOK /\
